@@ -5,9 +5,10 @@
    [contractb m (ground_facts t)]: the language guarantees m's contract for t (Model/LangOracle.v —
    the trusted reading of the reference: zero-validity, any-bit-pattern, no padding / uninit bytes,
    Copy, no interior mutability, no pointers, the null-pointer niche).  The marker lattice is a
-   consequence of the contracts being nested sets of facts.  Contiguous rows: C17. *)
+   consequence of the contracts being nested sets of facts.  The built-in Contiguous rows are decided by
+   Proofs/ContigProofs.v (each names exactly the valid values of its type), restated at the end; their use is C17. *)
 From Coq Require Import NArith List Bool String.
-From BM Require Import Base.TyExpr Model.LangOracle Model.TraitSolver Proofs.ImplSound.
+From BM Require Import Base.TyExpr Model.LangOracle Model.TraitSolver Proofs.ImplSound Proofs.ContigProofs.
 From BM.Gen Require Tables.
 Import ListNotations.
 Open Scope string_scope.
@@ -86,6 +87,15 @@ Proof.
   - intros ? _. split; reflexivity.
 Qed.
 
+(* every built-in `impl Contiguous` the crate declares (with and without features): Int is the primitive of
+   the same width, the default methods are not overridden, and [MIN_VALUE, MAX_VALUE] is exactly the set of
+   integers that are valid values of the type *)
+Theorem C04_contiguous_rows_all : Forall row_ok Tables.contiguous_rows_all.
+Proof. exact rows_ok_all. Qed.
+
+Theorem C04_contiguous_rows_none : Forall row_ok Tables.contiguous_rows_none.
+Proof. exact rows_ok_none. Qed.
+
 Print Assumptions C04_sound_all_features.
 Print Assumptions C04_sound_no_features.
 Print Assumptions C04_sound_alloc.
@@ -94,3 +104,5 @@ Print Assumptions C04_every_row_every_instantiation.
 Print Assumptions C04_lattice.
 Print Assumptions C04_transparent_rows.
 Print Assumptions C04_unsound_flag_refuted.
+Print Assumptions C04_contiguous_rows_all.
+Print Assumptions C04_contiguous_rows_none.
